@@ -44,7 +44,11 @@ CLASSES = (
     "are typed as np.arange(n) * 0.01 with decimal shifts, reference / base pressures of exactly zero, residuals summing to "
     "within 1e-12 of one, immobile stretches (zero mobility over consecutive rows), fluids first seen in single precision, "
     "objects re-read after another object used them, continued histories (old grid an exact prefix of the new one), two "
-    "figures open at once"
+    "figures open at once, results re-read after the plotting helpers / recovery queries used the object, the optional "
+    "`time` argument of recovery_factor, a supplied tau outside the configured tau limits, labelled pandas rows in another "
+    "field order, an index named like a column, sub-sampled time grids, unsigned integer dtypes, integer-typed fluid "
+    "parameters with depletion-ordered arrays, batches whose errors cancel, table rows a quarter of a psi apart, every option "
+    "passed positionally, public methods found by introspection, a foreign matplotlib scale registered first"
 )
 
 os.makedirs(OUT, exist_ok=True)
